@@ -8,6 +8,7 @@ import (
 	"encoding/json"
 	"errors"
 	"fmt"
+	"math"
 	"net"
 	"sort"
 	"sync"
@@ -493,7 +494,7 @@ func genC19(t *rapid.T) C19Case {
 			group++
 		}
 		c.Handlers = append(c.Handlers, C19Handler{Generic: rapid.IntRange(0, 2).Draw(t, "generic") == 0, ID: rapid.SampledFrom(ids[:4]).Draw(t, "hid"),
-			Priority: rapid.IntRange(-2, 2).Draw(t, "prio"), Group: group})
+			Priority: genPriority(t), Group: group})
 	}
 	if n := len(c.expectedCalls()); n > 0 && rapid.IntRange(0, 3).Draw(t, "fail") == 2 {
 		c.FailAt = rapid.IntRange(0, n-1).Draw(t, "failat")
@@ -538,6 +539,12 @@ var c19Prop = pbt.Register(pbt.Prop[C19Case]{
 		if tie && len(c.Handlers) >= 3 {
 			labels = append(labels, "priority_tie")
 		}
+		for _, h := range c.Handlers {
+			if h.Priority > 1<<62 || h.Priority < -(1<<62) {
+				labels = append(labels, "extreme_priority")
+				break
+			}
+		}
 		for k, v := range map[string]bool{"refuse": c.Refuse, "tcp": c.TCP, "ping": c.Ping, "handler_fails": c.FailAt >= 0} {
 			if v {
 				labels = append(labels, k)
@@ -549,3 +556,12 @@ var c19Prop = pbt.Register(pbt.Prop[C19Case]{
 })
 
 func TestC19(t *testing.T) { pbt.Run(t, c19Prop) }
+
+// genPriority: Priority is a plain int, every value is legal. Mostly small values (ties matter),
+// sometimes the ends of the int range.
+func genPriority(t *rapid.T) int {
+	if rapid.IntRange(0, 5).Draw(t, "priocls") == 3 {
+		return rapid.SampledFrom([]int{math.MinInt, math.MaxInt, math.MinInt + 1, math.MaxInt - 1, math.MinInt / 2, math.MaxInt/2 + 1, 1 << 31, -(1 << 31) - 1}).Draw(t, "prio_extreme")
+	}
+	return rapid.IntRange(-2, 2).Draw(t, "prio")
+}
